@@ -537,6 +537,7 @@ def tlv_by_offset(par, loop):
 
 
 VARIANTS = [
+    M('R7', LO2, "            self._update_active_ids_finished_cb = update_active_ids_finished_cb\n            self.active_anchor_ids = []\n", "            self._update_active_ids_finished_cb = update_active_ids_finished_cb\n", 'active id list keeps the previous poll'),
     M('R7', DK, "                self.name = _name.split(b'\\x00')[0].decode()", "                self.name = _name[:_name.index(b'\\x00')].decode()", 'name needs a terminator'),
     M('R8', 'cflib/crazyflie/mem/led_timings_driver_memory.py', "            if (timing['time'] & 0xFF) != 0 or led != 0 or extra != 0:", "            if timing['time'] != 0 or led != 0 or extra != 0:", 'filter tests the unmasked time'),
     M('R1', I2C, "                     self.elements['pitch_trim'],\n                     self.elements['roll_trim']] = struct.unpack('<BBBff',", "                     self.elements['roll_trim'],\n                     self.elements['pitch_trim']] = struct.unpack('<BBBff',", 'reader trims swapped'),
